@@ -10,7 +10,13 @@ def ident(x):
 
 
 def ctx_fun(x, tok=0):
-    """Context target: the context's default `tok` identifies WHICH registration supplied the work."""
+    """Context target: the context's default `tok` identifies WHICH registration supplied the work.
+    A string argument is a 'busy' job: announce it (marker file) and sit in ONE long blocking call."""
+    if isinstance(x, str):
+        with open(x, 'w'):
+            pass
+        time.sleep(90.0)
+        return 'slept'
     return x * 1000 + tok
 
 
@@ -60,3 +66,10 @@ def swallow_marked(marker=None, limit=120.0):
     """Swallowing target that announces (marker file) that it is running."""
     _mark(marker)
     return swallow_loop(limit)
+
+
+def block_marked(marker=None, secs=90.0):
+    """One long blocking call (an asynchronous exception is only seen when it returns): the job of a 'busy' worker."""
+    _mark(marker)
+    time.sleep(secs)
+    return 'slept'
